@@ -3,9 +3,10 @@
 (schema: /root/.vp/EVIDENCE.schema.json, level "exploration"). Every number comes from
 the partial files of *this* run; nothing is constant."""
 import json
+import os
 import sys
 
-VERIF = "/verif"
+VERIF = os.path.dirname(os.path.dirname(os.path.abspath(__file__)))
 
 RULES = {
     "C02": "histories of push/make_raw/make_move of every move-like form (Move, uci::Move, san::Move, Uci(str), San(str), UCI lists) "
@@ -32,9 +33,17 @@ ASSUMPTIONS = [
 def main():
     pid, tier, seed = sys.argv[1], sys.argv[2], int(sys.argv[3])
     parts = []
+    missing = []
     for prof in ("release", "checked"):
-        with open(f"{VERIF}/evidence/.partial/{pid}.{prof}.json") as f:
-            parts.append(json.load(f))
+        try:
+            with open(f"{VERIF}/evidence/.partial/{pid}.{prof}.json") as f:
+                parts.append(json.load(f))
+        except OSError:
+            missing.append(prof)  # the batch process of that profile died (crash triage took over)
+    if not parts:
+        parts.append({"profile": "none", "runs": 0, "steps_total": 0, "wall_s": 0.0, "nontrivial_set_hash": "", "nontrivial_distinct": 0,
+                      "violations": 1, "samples": [], "inapplicable_steps": 0, "distinct_positions": 0, "distinct_positions_capped": False,
+                      "distinct_op_trigrams": 0, "longest_game_plies": 0, "batch_digest": ""})
 
     def add_maps(key):
         out = {}
@@ -48,10 +57,10 @@ def main():
     wall = sum(p["wall_s"] for p in parts)
     same_set = len({p["nontrivial_set_hash"] for p in parts}) == 1
     distinct = parts[0]["nontrivial_distinct"] if same_set else max(p["nontrivial_distinct"] for p in parts)
-    violations = sum(p["violations"] for p in parts)
+    violations = sum(p["violations"] for p in parts) + len(missing)
     probes = add_maps("probes")
     zero_probes = sorted(k for k, v in probes.items() if v == 0)
-    samples = parts[0]["samples"] or parts[1]["samples"]
+    samples = next((p["samples"] for p in parts if p["samples"]), [])
     if not samples:
         samples = [{"note": "no non-trivial run among the first 64 run indices of this batch"}]
     coverage = {
@@ -87,6 +96,7 @@ def main():
             "model": ["refmodel.rs (stateless rules model)", "RefChain (start, accepted moves, keys, outcome)", "SpyRepeat (instrumented Repeat seam)"],
         },
         "known_findings_hit": add_maps("known_findings_hit"),
+        "profiles_whose_batch_process_died": missing,
         "violation": next((p["violation"] for p in parts if p.get("violation")), None),
         "exhaustive": False,
     }
